@@ -4,8 +4,9 @@ import BlugeGen.C20
 namespace Bluge.C20
 open Bluge.Highlight
 
-/-- the guard and statement table the hand-written model corresponds to; the only variant-dependent entry is
-the no-location branch of `Fragment` (its `if end > len(orig)` disappears with repair 3) -/
+/-- the guard and statement table the hand-written model corresponds to; the variant-dependent entries are
+the no-location branch of `Fragment` (its `if end > len(orig)` disappears with repair 3) and the assignment
+of `lastTl.End` in MergeOverlapping (guarded by `tl.End > lastTl.End` with repair 5) -/
 def expectedFacts (v : Variant) : List (String × String) := [
   ("score.onHit", "_ += 1.0; break"),
   ("html.init", "_ := \"\""),
@@ -16,7 +17,9 @@ def expectedFacts (v : Variant) : List (String × String) := [
   ("ansi.init", "_ := _.Start"),
   ("ansi.loop", "if _ == nil { continue }; if _.Start < _ { continue }; if _.End > _.End { break }; _ += string(_.Orig[_:_.Start]); _ += _.color; _ += string(_.Orig[_.Start:_.End]); _ += Reset; _ = _.End"),
   ("ansi.tail", "_ += string(_.Orig[_:_.End]); return _"),
-  ("merge", "var lastTl *TermLocation; range _ { if _ == nil && _ != nil { _ = _ } else if _ != nil && _ != nil { if _.Overlaps(_) { _.End = _.End; _[_] = nil } } }"),
+  ("merge", if v.mergeMax
+    then "var lastTl *TermLocation; range _ { if _ == nil && _ != nil { _ = _ } else if _ != nil && _ != nil { if _.Overlaps(_) { if _.End > _.End { _.End = _.End }; _[_] = nil } } }"
+    else "var lastTl *TermLocation; range _ { if _ == nil && _ != nil { _ = _ } else if _ != nil && _ != nil { if _.Overlaps(_) { _.End = _.End; _[_] = nil } } }"),
   ("fragment.conds", "for _ < len(_) && _ < _.fragmentSize; for _ > 0 && _ < _.fragmentSize; if _ > len(_); if _ - _ >= _; if _.End > _; if _ >= _; if _ < _; for _ > 0; if len(_) == 0"),
   ("fragment.noLocation", if v.runeCut then "for _ < len(_) && _ < _.fragmentSize" else "if _ > len(_)")
 ]
@@ -31,10 +34,9 @@ theorem overlapsFrag_eq (a b : Fragment) : BlugeGen.C20.overlapsFrag a b = a.ove
   by_cases h1 : b.start ≥ a.start ∧ b.start < a.stop <;>
     by_cases h2 : a.start ≥ b.start ∧ a.start < b.stop <;> simp [h1, h2] <;> omega
 
-/-- the order the model sorts by is `Less` -/
-theorem insertByStart_less (x y : TermLocation) (ys : List TermLocation) :
-    insertByStart x (y :: ys) = if BlugeGen.C20.lessTL x y = true then x :: y :: ys else y :: insertByStart x ys := by
-  simp [insertByStart, BlugeGen.C20.lessTL]
+/-- the order the model sorts by is the translated `Less` of this tree -/
+theorem lessTL_gen (a b : TermLocation) : BlugeGen.C20.lessTL a b = lessTL BlugeGen.C20.variant.tieBreak a b := by
+  simp [BlugeGen.C20.lessTL, BlugeGen.C20.variant, lessTL]
 
 /-- the model's score counts the distinct terms of the locations the scorer's test accepts -/
 theorem scoreOf_inside (locs : List TermLocation) (f : Fragment) :
